@@ -95,7 +95,8 @@ def _case(draw):
                 prog = draw(progs.programs(t2, kinds=("b", "assign", "se"), max_comps=2, depth=1))
                 prog["comps"] = observers(draw) + c20.by_index(prog["comps"], t2["cols"])
                 jobs[j] = {"file": k, "prog": prog, "scan": draw(progs.scans(t2)), "via": draw(st.sampled_from(["CsvPath", "CsvPaths", "CsvPaths"]))}
-    return {"files": files, "jobs": jobs, "warm": draw(st.booleans()), "repeat": draw(st.integers(0, njobs - 1)), "rewrite": rewrite}
+    return {"files": files, "jobs": jobs, "warm": draw(st.booleans()), "repeat": draw(st.integers(0, njobs - 1)), "rewrite": rewrite,
+            "delimiter": draw(st.sampled_from([",", ",", ";", "|"]))}
 
 
 def strategy(tier):
@@ -105,23 +106,23 @@ def strategy(tier):
 KEYS = ("lines", "variables", "printouts", "errors", "is_valid", "scan_count", "match_count", "headers", "raised")
 
 
-def run_job(job, rel, cps=None):
+def run_job(job, rel, cps=None, delimiter=","):
     text = common.text_of(job["prog"], rel, job["scan"])
     if job["via"] == "CsvPaths":
-        cps = cps or real.new_csvpaths()
+        cps = cps or real.new_csvpaths(delimiter=delimiter)
         r = real.run_path(text, csvpaths=cps)
     else:
-        r = real.run_path(text)
+        r = real.run_path(text, delimiter=delimiter)
     out = {k: r[k] for k in KEYS}
     if out["raised"]:
         out["raised"] = {"raised": out["raised"]["raised"]}
     return json.loads(json.dumps(out, default=str))
 
 
-def twin(job, records, fname):
+def twin(job, records, fname, delimiter=","):
     """run one job alone in a fresh process with an empty cache"""
     # the twin is always created directly (CsvPath()): the property also says the creation route does not matter
-    payload = json.dumps({"job": dict(job, via="CsvPath"), "records": records, "fname": fname})
+    payload = json.dumps({"job": dict(job, via="CsvPath"), "records": records, "fname": fname, "delimiter": delimiter})
     env = dict(os.environ)
     env.pop("CSVPATH_CONFIG_PATH", None)
     r = subprocess.run([sys.executable, "-m", "vf.props.c19"], input=payload, capture_output=True, text=True,
@@ -131,9 +132,9 @@ def twin(job, records, fname):
     return json.loads(r.stdout.strip().split("\n")[-1])
 
 
-def warm_cache(files, sb):
+def warm_cache(files, sb, delimiter=","):
     """an earlier process ran something over the same file paths through CsvPaths"""
-    payload = json.dumps({"warm": [{"fname": f["name"], "records": f["records"]} for f in files], "root": sb.root})
+    payload = json.dumps({"warm": [{"fname": f["name"], "records": f["records"]} for f in files], "root": sb.root, "delimiter": delimiter})
     env = dict(os.environ)
     r = subprocess.run([sys.executable, "-m", "vf.props.c19"], input=payload, capture_output=True, text=True,
                        env=env, cwd=core.VERIF_ROOT)
@@ -143,13 +144,14 @@ def warm_cache(files, sb):
 
 def run_case(case, sb):
     files = [dict(f) for f in case["files"]]
-    rels = [sb.write_csv(f["name"], f["records"]) for f in files]
-    labels = []
+    dl = case.get("delimiter", ",")
+    rels = [sb.write_csv(f["name"], f["records"], delimiter=dl) for f in files]
+    labels = [f"delimiter:{dl}"]
     if case["warm"]:
-        warm_cache(files, sb)
+        warm_cache(files, sb, dl)
         labels.append("warm-cache")
     problems = []
-    cps = real.new_csvpaths()
+    cps = real.new_csvpaths(delimiter=dl)
     twins = {}
     current = {k: f["records"] for k, f in enumerate(files)}
     used = {}
@@ -160,16 +162,16 @@ def run_case(case, sb):
         rw = case.get("rewrite")
         if rw and rw["before_job"] == j:
             current[rw["file"]] = rw["records"]
-            sb.write_csv(files[rw["file"]]["name"], rw["records"])
+            sb.write_csv(files[rw["file"]]["name"], rw["records"], delimiter=dl)
             labels.append("path-rewritten")
         k = job["file"]
         used[k] = used.get(k, 0) + 1
         shared = shared or used[k] >= 2
         via_cps = via_cps or (job["via"] == "CsvPaths" and (case["warm"] or used[k] >= 2))
-        got = run_job(job, rels[k], cps if job["via"] == "CsvPaths" else None)
+        got = run_job(job, rels[k], cps if job["via"] == "CsvPaths" else None, dl)
         key = core.case_hash({"job": dict(job, via="CsvPath"), "records": current[k]})
         if key not in twins:
-            twins[key] = twin(job, current[k], files[k]["name"])
+            twins[key] = twin(job, current[k], files[k]["name"], dl)
         exp = twins[key]
         if got != exp:
             diff = {f: {"in_history": got[f], "fresh_process": exp[f]} for f in KEYS if got[f] != exp[f]}
@@ -177,7 +179,7 @@ def run_case(case, sb):
                              "records": current[k], "differs": diff})
             break
         if j == case["repeat"]:
-            again = run_job(job, rels[k], cps if job["via"] == "CsvPaths" else None)
+            again = run_job(job, rels[k], cps if job["via"] == "CsvPaths" else None, dl)
             if again != got:
                 diff = {f: {"first": got[f], "second": again[f]} for f in KEYS if got[f] != again[f]}
                 problems.append({"job": j, "repeat_differs": diff})
@@ -202,7 +204,7 @@ def _main():
         os.chdir(payload["root"])
         os.environ["CSVPATH_CONFIG_PATH"] = os.path.join(payload["root"], "config", "config.ini")
         assert_repo_code()
-        cps = real.new_csvpaths()
+        cps = real.new_csvpaths(delimiter=payload.get("delimiter", ","))
         for f in payload["warm"]:
             real.run_path(f"$data/{f['fname']}[*][yes()]", csvpaths=cps)
         print(json.dumps({"ok": True}))
@@ -211,8 +213,8 @@ def _main():
     try:
         assert_repo_code()
         sb.reset()
-        rel = sb.write_csv(payload["fname"], payload["records"])
-        out = run_job(payload["job"], rel)
+        rel = sb.write_csv(payload["fname"], payload["records"], delimiter=payload.get("delimiter", ","))
+        out = run_job(payload["job"], rel, None, payload.get("delimiter", ","))
         print(json.dumps(out))
     finally:
         sb.close()
